@@ -28,7 +28,7 @@ from .core import Relation, err_kind
 
 PROP = "C14"
 CLAIMED = True
-COQ_MODULES = ["C14_Check", "C14_Proofs", "C14_CheckVcf", "C14_ProofsVcf"]
+COQ_MODULES = ["C14_Check", "C14_Proofs", "C14_CheckVcf", "C14_ProofsVcf", "C14_CheckConv"]
 PROPERTY_MODULE = "C14_Property"
 ALLOWED_AXIOMS = []
 
@@ -50,10 +50,13 @@ TRANSLATION = {
                 "until_append_to": "hap_samples", "result": "segments",
                 "params": ["chroms", "end_coords", "p_pop", "haps", "homolog", "true_coords", "prev_gen_samples",
                            "segments"]}),
+            ("haptools/sim_genotype.py", "_convert_haplotype"),
         ],
     },
-    "models": ["TVM_C14"],   # definitions only: evaluation of the translated code (tv_kernel relation)
-    "proofs": ["TV_C14"],    # translation-validation theorems
+    # definitions only: evaluation of the translated code (tv_kernel, tv_conv relations)
+    "models": ["TVM_C01", "TVM_C14"],
+    # translation-validation theorems (TV_C01: start_segment, used by TV_C14_Conv)
+    "proofs": ["TV_C01", "TV_C14", "TV_C14_Conv"],
 }
 RULE = (
     "kernel: 1-12 calls on a table of 1-4 reference samples, interval ends from a 12-point grid so that equal, "
@@ -1199,7 +1202,9 @@ class TVKernel(Kernel):
 
 
 
-RELATIONS = [Kernel(), Norep(), Params(), Cli(), TVKernel()]
+from .c14_conv import Conv, TVConv  # noqa: E402
+
+RELATIONS = [Kernel(), Norep(), Params(), Cli(), TVKernel(), Conv(), TVConv()]
 
 LEVEL_TEXT = (
     "Coq theorems over all histories of _find_coord/_find_random_sample calls and all shuffles (no size bound) about a "
